@@ -31,7 +31,7 @@ pub(crate) fn any_request_packet_opt(with_option_and_payload: bool) -> (Packet, 
     (p, b0, code, id, tok, tl)
 }
 
-//@ props=C07 tier=quick timeout=900 mem=10
+//@ props=C07 tier=quick timeout=900 mem=4
 //@ functions=CoapResponse::new, CoapRequest::from_packet, Packet::set_token, Header::set_version, Header::set_type
 //@ bounds=first header byte: all 256 (4 versions x 4 types x any TKL nibble); code: all 256; message id: all 65536; token length 0..8 with symbolic bytes; one option with symbolic number and value; one payload byte
 //@ what=response prepared iff CON/NON; ACK for CON, NON for NON; version 1; same message id; same token byte for byte; 2.05; no options; empty payload; from_packet wires message/response/source
@@ -120,7 +120,7 @@ fn ref_status_byte(s: Status) -> u8 {
     }
 }
 
-//@ props=C19 tier=quick timeout=600 model=0
+//@ props=C19 tier=quick timeout=600 model=0 mem=4
 //@ functions=CoapResponse::get_status, CoapResponse::set_status
 //@ bounds=code byte: all 256 values; set_status over every status the code byte can name
 //@ what=get_status names exactly the status whose registry byte is the raw code, UnKnown for every other byte; set_status stores the registry byte and get_status reads the same status back
